@@ -14,6 +14,7 @@ class Check:
         self.known_hits = []    # (finding, description)
         self.ok_builds = True
         self.findings = C.known_findings(pid)
+        self.mismatch = None    # first model/implementation disagreement: a concrete replay of the broken tie
 
     # ---- builds -------------------------------------------------------
     def builds(self, model=True, harness=True, skeletons=False):
@@ -82,8 +83,9 @@ class Check:
         if shape is None:
             return None
         for f in self.findings:
-            if shape_matches(f.get("shape"), shape):
-                return f
+            for pat in [f.get("shape")] + list(f.get("shapes", [])):
+                if pat is not None and shape_matches(pat, shape):
+                    return f
         return None
 
     def known(self, finding, what):
@@ -121,7 +123,7 @@ class Check:
                 C.report_violation(self.pid, found, True)
             else:
                 C.report_violation(self.pid, {"property": self.pid, "kind": "obligation",
-                                              "broken": self.broken[:8],
+                                              "broken": self.broken[:8], "first_disagreement": self.mismatch,
                                               "searched": self.ev.cov.get("search_description", "see evidence")}, False)
             rc = 1
         self.ev.d["violations"] = rc
